@@ -28,7 +28,10 @@ RULE += (
          ' Plus `filenames`: all pairs (thorough: and triples) of 22'
          ' awkward file names (stem a prefix of another stem, several dots,'
          ' case, blanks, backup suffixes) in one directory; the last in'
-         ' plain string order must win.')
+         ' plain string order must win.'
+         ' Plus transitions: every subset of the 9 layers, one decision,'
+         ' one layer created or deleted, next decision (4096 two-step'
+         ' histories).')
 ASSUMPTIONS = ['real tmpfs directory; files created in reverse lexical order; '
                'raw os.listdir order recorded in evidence',
                'opts._options default restored and asserted after each row']
@@ -80,6 +83,9 @@ def plan(tier, seed):
     for how in HOWS:
         jobs.append({'space': 'pick', 'how': how, 'tier': tier, 'weight': 60})
     jobs.append({'space': 'scope', 'tier': tier, 'weight': 5})
+    for lo, hi in core.chunks(512, 16):
+        jobs.append({'space': 'transitions', 'lo': lo, 'hi': hi,
+                     'tier': tier, 'weight': (hi - lo) * 8})
     for i in range(8):
         jobs.append({'space': 'filenames', 'tier': tier, 'shard': i, 'of': 8,
                      'weight': 30 if tier == 'quick' else 300})
@@ -163,6 +169,8 @@ def run(job, seed):
         return run_spelling(acc, P)
     if job['space'] == 'filenames':
         return run_filenames(acc, P, job)
+    if job['space'] == 'transitions':
+        return run_transitions(acc, P, job)
     listdir_seen = None
     for idx in range(job['lo'], job['hi']):
         if job['space'] == 'one':
@@ -236,6 +244,64 @@ def _lname(i):
     if isinstance(i, int):
         return LAYERS[i][2] or 'default'
     return str(i)
+
+
+# ---- one layer appears or disappears after the first decision ---------------------
+
+def run_transitions(acc, P, job):
+    """Every subset of the 9 layers, one decision, then ONE file layer is
+    created or deleted (its directory's and its own times advance), and an
+    ordinary enforce() follows: the layering of the files as they are NOW
+    decides.  (Longer histories are C10's ground; this is its first step on
+    the full C09 layout, including a main file that is absent at first.)"""
+    for idx in range(job['lo'], job['hi']):
+        sub = {LAYERS[b][0] for b in range(9) if idx >> b & 1}
+        for flip in range(1, 9):
+            after = sub ^ {flip}
+            defs = {i: {NAMES[0]: 'role:L%d' % i} for i in sub}
+            w = world.FileWorld()
+            try:
+                layout(w, defs, set(), 'absent')
+                enf = enforcer(P, w, defs, False)
+                acc.ev(len(LAYERS))
+                first = probe(enf, NAMES[0])
+                rel = LAYERS[flip][2]
+                if flip in sub:
+                    w.delete(rel)
+                else:
+                    if '/' in rel and not os.path.isdir(
+                            os.path.dirname(w.path(rel))):
+                        w.mkdir(os.path.dirname(rel))
+                    w.write(rel, world.dumps_policy(
+                        {NAMES[0]: 'role:L%d' % flip}))
+                acc.case('transitions', True)
+                acc.ev(len(LAYERS))
+                got = probe(enf, NAMES[0])
+                exp = winner(after)
+                if first != winner(sub):
+                    acc.violation('transitions|first', 'first decision %s, '
+                                  'expected %s' % (_lname(first),
+                                                   _lname(winner(sub))),
+                                  {'layers': sorted(sub)}, winner(sub), first,
+                                  'transitions')
+                elif got != exp:
+                    acc.violation(
+                        'transitions|%s-%s|exp=%s|got=%s' % (
+                            'delete' if flip in sub else 'create',
+                            LAYERS[flip][2], _lname(exp), _lname(got)),
+                        'layers %s decided, then %s was %s: layer %s is in '
+                        'effect, the files as they are now say %s' %
+                        (sorted(sub), LAYERS[flip][2], 'deleted' if flip in
+                         sub else 'created', _lname(got), _lname(exp)),
+                        {'layers': sorted(sub), 'flip': flip}, exp, got,
+                        'transitions')
+                acc.outcome('transition-%s' % ('same-winner' if
+                                               exp == winner(sub)
+                                               else 'new-winner'))
+            finally:
+                w.destroy()
+    acc.sample('transitions', {'layers': sorted(sub), 'flip': LAYERS[flip][2]})
+    return acc.result()
 
 
 # ---- file names that sort awkwardly ---------------------------------------------
